@@ -92,6 +92,14 @@ func check(c Case) error {
 			}
 		}
 	}
+	if len(s) <= 20000 { // so are relatives the library has to reject part-way, and the steps of building s up
+		for _, sp := range vk.Spoil(s, "J!"[len(s)%2]) {
+			_, _ = seqhash.Hash(sp, c.Type, c.Circ, c.DS)
+		}
+		for _, st := range vk.Stems(s) {
+			_, _ = seqhash.Hash(st, c.Type, c.Circ, c.DS)
+		}
+	}
 	h, err := seqhash.Hash(s, c.Type, c.Circ, c.DS)
 	if c.Reject {
 		if err == nil && c.FoldAs != "" {
